@@ -134,6 +134,8 @@ def _work(idx: int) -> dict:
                 out["unsupported"].append(r.detail[:300])
         elif r.status == "inconclusive":
             out["inconclusive"].append(r.detail[:300])
+        for note in getattr(r, "soft_inconclusive", []):
+            out["inconclusive"].append(note[:300])
         for lab in r.proved:
             d = out["labels"].setdefault(lab, {"proved": 0, "failed": 0})
             d["proved"] += 1
